@@ -264,11 +264,16 @@ def seek_history(rng, song, loop=False, loop_p=0.5):
         # a tempo multiplier: seek targets, reported positions and delivery times stay in song time
         m = rng.choice([(2, 1), (1, 2), (3, 2), (4, 5)]); h.append({"e": "SetTempo", "num": m[0], "den": m[1]})
     looped = loop and rng.random() < loop_p
-    if looped:
+    loopcfg = [{"e": "SetLoop", "en": 1}, {"e": "SetLoopCount", "n": rng.choice([1, 2, 2, 3])}]
+    late = looped and rng.random() < 0.4
+    if looped and not late:
         # looping on, finite count: the target lies before the loop end in most cases; what follows the seek is then what
         # a linear looping playback delivers after the target (rest of this pass, the remaining passes, the tail)
-        h += [{"e": "SetLoop", "en": 1}, {"e": "SetLoopCount", "n": rng.choice([1, 2, 2, 3])}]
+        h += loopcfg
     h.append({"e": "Load"})
+    if late:
+        # looping switched on only AFTER the file was loaded (the loop points are found at load time whatever the switch says)
+        h += loopcfg
     ts = ref_times(song)
     last = ts[-1] if ts else 0
     cands = [0] + ts + [(a + b) // 2 for a, b in zip(ts, ts[1:])] + [last + 500000, last + 1000000]
